@@ -212,4 +212,12 @@ theorem backends_agree (be1 be2 : Backend) (b : Build) (s1 s2 : State) (op : Op)
           rw [hrel.1, hrel2.1]
         · rw [hfr1, hfr2, hs.2.2]
 
+/-! ### the premises occur: two back ends in corresponding states -/
+
+/-- after `eav_init; eav_setup` (mode 6531) the libidn2 and idnkit objects are `Same`, both satisfy the ledger invariant, and the idnkit one
+holds a context the libidn2 one does not have -/
+example : ∃ s1 s2, step .idn2 {} (eavInit {}) .setup = .ok (s1, .rc 0) ∧ step .idnkit {} (eavInit {}) .setup = .ok (s2, .rc 0) ∧
+    Same s1 s2 ∧ C13.Inv .idn2 s1 ∧ C13.Inv .idnkit s2 ∧ s1.resconfLive = 0 ∧ s2.resconfLive = 1 := by
+  refine ⟨_, _, rfl, rfl, ⟨rfl, rfl, rfl⟩, ?_, ?_, rfl, rfl⟩ <;> simp [C13.Inv, eavInit]
+
 end Eav.Props.C18
